@@ -873,3 +873,213 @@ func TestVerif_C08_Concurrent(t *testing.T) {
 		tr.Count("concurrent_evicted_results", int(evicted.Load()))
 	}
 }
+
+// ---- bounded stress of stale handles (quick and thorough tier)
+//
+// One record `one stress cap=<c> size=<n> writers=<w> ops=<o> mode=evict|delete spin=<s> reps=<r> rs=<seed>`
+// = r races: a complete blob of `size` bytes is created and opened by `writers` goroutines, each of
+// which performs `ops` GROWING WriteAt calls (always past the current end, so that the slice must be
+// re-allocated) interleaved with reads; one more goroutine removes the blob after `spin` iterations of
+// a busy loop, by an evicting Create (mode=evict) or a Delete (mode=delete). When everybody has
+// finished the incarnation is gone for certain, and EVERY operation through EVERY handle of it must
+// report the evicted result. The handle calls are atomic with respect to eviction only because each
+// holds the slice lock for the whole call: this is what the run checks on real schedules.
+
+type c08StressParams struct {
+	capacity, size uint64
+	writers, ops   int
+	mode           string
+	spin, reps     int
+	rs             uint64
+}
+
+func c08ParseStress(toks []string) (p c08StressParams, ok bool) {
+	p = c08StressParams{capacity: 8, size: 2, writers: 3, ops: 40, mode: "evict", spin: 50, reps: 10, rs: 1}
+	for _, t := range toks {
+		k, v, found := strings.Cut(t, "=")
+		if !found {
+			continue
+		}
+		n, err := strconv.ParseUint(v, 10, 64)
+		if k == "mode" {
+			if v != "evict" && v != "delete" {
+				return p, false
+			}
+			p.mode = v
+			continue
+		}
+		if err != nil {
+			return p, false
+		}
+		switch k {
+		case "cap":
+			p.capacity = n
+		case "size":
+			p.size = n
+		case "writers":
+			p.writers = int(n)
+		case "ops":
+			p.ops = int(n)
+		case "spin":
+			p.spin = int(n)
+		case "reps":
+			p.reps = int(n)
+		case "rs":
+			p.rs = n
+		}
+	}
+	if p.capacity == 0 || p.size == 0 || p.size > p.capacity || p.writers < 1 || p.writers > 16 || p.ops < 1 ||
+		p.ops > 4096 || p.reps < 1 || p.reps > 100000 || p.spin > 1<<20 {
+		return p, false
+	}
+	return p, true
+}
+
+func (p c08StressParams) toks() []string {
+	return []string{"stress", fmt.Sprintf("cap=%d", p.capacity), fmt.Sprintf("size=%d", p.size),
+		fmt.Sprintf("writers=%d", p.writers), fmt.Sprintf("ops=%d", p.ops), "mode=" + p.mode,
+		fmt.Sprintf("spin=%d", p.spin), fmt.Sprintf("reps=%d", p.reps), fmt.Sprintf("rs=%d", p.rs)}
+}
+
+var c08Sink atomic.Uint64
+
+// c08StressOnce runs the races of one record; returns what a stale handle was seen to do ("" = nothing wrong).
+func c08StressOnce(p c08StressParams) (bad string, staleOps int) {
+	r := verifh.NewRand(p.rs, "c08-stress")
+	for rep := 0; rep < p.reps; rep++ {
+		s := c08NewStore(p.capacity)
+		key := "key-0"
+		f0, err := s.Create(key, p.size)
+		if err != nil {
+			return "setup:" + err.Error(), staleOps
+		}
+		_, _ = f0.Write([]byte(strings.Repeat("a", int(p.size))))
+		if p.mode == "evict" {
+			_ = s.MarkComplete(key)
+		}
+		handles := []*File{f0}
+		for i := 0; i < p.writers; i++ {
+			f, err := s.Open(key)
+			if err != nil {
+				return "setup:" + err.Error(), staleOps
+			}
+			handles = append(handles, f)
+		}
+		spin := p.spin
+		if spin > 0 {
+			spin = r.Intn(2*p.spin + 1)
+		}
+		var wg sync.WaitGroup
+		start := make(chan struct{})
+		for i := 0; i < p.writers; i++ {
+			wg.Add(1)
+			f := handles[1+i]
+			go func() {
+				defer wg.Done()
+				<-start
+				buf := make([]byte, 4)
+				for j := 0; j < p.ops; j++ {
+					// grow: write one byte past the current end (ignores ErrEvicted: the blob may be gone)
+					sz := f.Size()
+					if sz < 0 {
+						sz = int64(j)
+					}
+					_, _ = f.WriteAt([]byte{'b'}, sz)
+					_, _ = f.ReadAt(buf, 0)
+				}
+			}()
+		}
+		wg.Add(1)
+		go func() {
+			defer wg.Done()
+			<-start
+			x := uint64(0)
+			for j := 0; j < spin; j++ {
+				x += uint64(j) * 2654435761
+			}
+			c08Sink.Add(x)
+			if p.mode == "evict" {
+				if _, err := s.Create("key-filler", p.capacity); err != nil {
+					_ = s.Delete(key) // the blob grew no reservation, so this cannot happen; be safe
+				}
+			} else {
+				_ = s.Delete(key)
+			}
+		}()
+		close(start)
+		wg.Wait()
+		if in, _ := s.Has(key); in {
+			return "setup:blob-survived", staleOps
+		}
+		// the incarnation is gone: every operation through every handle must say so, for ever
+		for round := 0; round < 2; round++ {
+			for hi, f := range handles {
+				staleOps += 4
+				if n := f.Size(); n != -1 {
+					return fmt.Sprintf("rep=%d handle=%d Size=%d", rep, hi, n), staleOps
+				}
+				if n, err := f.ReadAt(make([]byte, 4), 0); !errors.Is(err, ErrEvicted) {
+					return fmt.Sprintf("rep=%d handle=%d ReadAt=%d,%v", rep, hi, n, err), staleOps
+				}
+				if n, err := f.WriteAt([]byte{'c'}, 0); !errors.Is(err, ErrEvicted) {
+					return fmt.Sprintf("rep=%d handle=%d WriteAt=%d,%v", rep, hi, n, err), staleOps
+				}
+				if n, err := f.Seek(0, io.SeekStart); !errors.Is(err, ErrEvicted) {
+					return fmt.Sprintf("rep=%d handle=%d Seek=%d,%v", rep, hi, n, err), staleOps
+				}
+			}
+		}
+	}
+	return "", staleOps
+}
+
+func c08StressRecord(tr *verifh.T, p c08StressParams) {
+	bad, n := c08StressOnce(p)
+	tr.Count("stress_races", p.reps)
+	tr.Count("stress_stale_handle_ops", n)
+	if bad != "" {
+		key := "stale-handle-revived"
+		if strings.HasPrefix(bad, "setup:") {
+			key = "harness-stress-setup"
+		}
+		tr.PropFail(key, verifh.Str(bad), verifh.Str(strings.Join(p.toks(), " ")))
+		tr.One(p.toks(), "revived")
+		return
+	}
+	tr.One(p.toks(), "ok")
+}
+
+func TestVerif_C08_Stress(t *testing.T) {
+	tr := verifh.Open("ms")
+	defer tr.Close()
+	cases, replayOnly := verifh.InputCases("ms")
+	for _, c := range cases {
+		for _, op := range c.Ops {
+			if len(op) >= 2 && op[0] == "one" && op[1] == "stress" {
+				if p, ok := c08ParseStress(op[2:]); ok {
+					if replayOnly && p.reps < 600 {
+						p.reps = 600 // a race is a matter of luck: give a replay many more attempts
+					}
+					c08StressRecord(tr, p)
+				}
+			}
+		}
+	}
+	if replayOnly {
+		return
+	}
+	r := verifh.NewRand(verifh.Seed(), "c08-stress-gen")
+	for i := 0; i < verifh.Scale(160, 4000); i++ {
+		p := c08StressParams{
+			capacity: uint64(4 + r.Intn(13)),
+			writers:  1 + r.Intn(5),
+			ops:      8 + r.Intn(56),
+			mode:     r.Pick("evict", "evict", "delete"),
+			spin:     []int{0, 10, 100, 1000, 5000}[r.Intn(5)],
+			reps:     12,
+			rs:       r.Uint64() % 1000000,
+		}
+		p.size = 1 + uint64(r.Intn(int(p.capacity)))
+		c08StressRecord(tr, p)
+	}
+}
